@@ -347,6 +347,178 @@ theorem complete_reassembles (L : Nat) (hL : 0 < L) (hlen : ∀ x, (H x).length 
   rw [← hpieces]
   exact split_join data psize hps
 
+
+/-! ## Traced versions: the collision alternative is among the strings hashed in this run -/
+
+/-- `verify_inclusion` with a traced collision. -/
+theorem verify_inclusion_traced (L : Nat) (hL : 0 < L) (hlen : ∀ x, (H x).length = L)
+    (items : List Bytes) (hne : items ≠ []) (leaf : Bytes) (p : Proof)
+    (hv : verify H (root H items) leaf p = .ok ()) :
+    leaf ∈ items ∨ CollisionIn H
+      ((0 :: leaf) :: pathPre H p.total.toNat p.index.toNat p.total.toNat (leafHash H leaf) p.aunts)
+      (rootPre H items.length items) := by
+  unfold verify at hv
+  split at hv; · cases hv
+  split at hv; · cases hv
+  split at hv; · cases hv
+  rename_i hleaf
+  have hrootlen : (root H items).length = L := rootF_len H L hlen _ _
+  have hrne : root H items ≠ [] := by
+    intro h; rw [h] at hrootlen; simp at hrootlen; omega
+  have hcomp : computeRoot H p = some (root H items) := by
+    split at hv
+    · simp [hrne] at hv
+    · rename_i h heq; split at hv
+      · rename_i e; rw [heq, e]
+      · cases hv
+  unfold computeRoot at hcomp
+  split at hcomp; · cases hcomp
+  have hlh : p.leafHash = leafHash H leaf := by simpa using hleaf
+  rw [hlh] at hcomp
+  exact fromAunts_inclusion_traced H L hlen items.length items (Nat.le_refl _) hne _ _ _ leaf _ hcomp
+
+/-- the strings hashed while `AddPart` checks part `p` against a header of `n` parts -/
+def partPre (n : Nat) (p : Part) : List Bytes :=
+  (0 :: p.bytes) :: pathPre H n p.index n (leafHash H p.bytes) p.proof.aunts
+
+/-- `addPart_binds_position` with a traced collision. -/
+theorem addPart_binds_position_traced (L : Nat) (hL : 0 < L) (hlen : ∀ x, (H x).length = L)
+    (pieces : List Bytes) (hne : pieces ≠ []) (ps ps' : PartSet) (p : Part)
+    (htot : ps.total = pieces.length) (hhash : ps.hash = root H pieces)
+    (hadd : addPart H ps p = (ps', .added)) :
+    (∃ h : p.index < pieces.length, p.bytes = pieces[p.index]) ∨
+      CollisionIn H (partPre H pieces.length p) (rootPre H pieces.length pieces) := by
+  unfold addPart at hadd
+  split at hadd; · cases hadd
+  split at hadd; · cases hadd
+  split at hadd; · cases hadd
+  rename_i hpos
+  split at hadd; · cases hadd
+  rename_i u hv
+  have hpi : p.proof.index = (p.index : Int) := by
+    rcases Decidable.em (p.proof.index = (p.index : Int)) with h | h
+    · exact h
+    · exact absurd (Or.inl h) hpos
+  have hpt : p.proof.total = (ps.total : Int) := by
+    rcases Decidable.em (p.proof.total = (ps.total : Int)) with h | h
+    · exact h
+    · exact absurd (Or.inr h) hpos
+  rw [hhash] at hv
+  have hv' : verify H (root H pieces) p.bytes p.proof = .ok () := by rw [hv]
+  have hidx : p.proof.index.toNat = p.index := by rw [hpi]; simp
+  rcases verify_position_traced H L hL hlen pieces hne p.bytes p.proof (by rw [hpt, htot]) hv' with
+    ⟨_, hi, he⟩ | hc
+  · left
+    simp only [hidx] at hi he
+    exact ⟨hi, he⟩
+  · right
+    simp only [hidx] at hc
+    exact hc
+
+theorem good_step_traced (L : Nat) (hL : 0 < L) (hlen : ∀ x, (H x).length = L)
+    (pieces : List Bytes) (hne : pieces ≠ [])
+    (ps : PartSet) (p : Part) (hg : Good H pieces ps)
+    (hno : ¬ CollisionIn H (partPre H pieces.length p) (rootPre H pieces.length pieces)) :
+    Good H pieces (addPart H ps p).1 := by
+  rcases hres : addPart H ps p with ⟨ps', r⟩
+  cases r with
+  | added =>
+    obtain ⟨h1, h2, h3, h4⟩ := hg
+    rcases addPart_binds_position_traced H L hL hlen pieces hne ps ps' p h1 h2 hres with ⟨hi, he⟩ | hc
+    · have hps' : ps' = { ps with parts := ps.parts.set p.index (some p) } := by
+        unfold addPart at hres
+        split at hres; · cases hres
+        split at hres; · cases hres
+        split at hres; · cases hres
+        split at hres; · cases hres
+        exact (Prod.mk.inj hres).1.symm
+      subst hps'
+      refine ⟨h1, h2, by simpa using h3, ?_⟩
+      intro i q hq
+      simp only [List.getElem?_set] at hq
+      split at hq
+      · rename_i heq
+        split at hq
+        · simp at hq; subst hq; subst heq; simp [hi, he]
+        · cases hq
+      · exact h4 i q hq
+    · exact absurd hc hno
+  | dup | errIndex | errProof =>
+    have : ps' = ps := by
+      unfold addPart at hres
+      split at hres; · exact (Prod.mk.inj hres).1.symm
+      split at hres; · exact (Prod.mk.inj hres).1.symm
+      split at hres; · exact (Prod.mk.inj hres).1.symm
+      split at hres
+      · exact (Prod.mk.inj hres).1.symm
+      · cases (Prod.mk.inj hres).2
+    simpa [this] using hg
+
+/-- `complete_reassembles` with a traced collision: a completed part set reassembles to the
+original bytes unless one of the OFFERED parts collides, on a string hashed while checking it,
+with a node of the real tree. -/
+theorem complete_reassembles_traced (L : Nat) (hL : 0 < L) (hlen : ∀ x, (H x).length = L)
+    (data : Bytes) (psize : Nat) (hps : 0 < psize) (hd : data ≠ [])
+    (offers : List Part)
+    (hcomplete : isComplete (addAll H (fromHeader (split data psize).length
+        (root H (split data psize))) offers) = true) :
+    assemble (addAll H (fromHeader (split data psize).length (root H (split data psize))) offers)
+        = data ∨
+      ∃ p ∈ offers, CollisionIn H (partPre H (split data psize).length p)
+        (rootPre H (split data psize).length (split data psize)) := by
+  by_cases hex : ∃ p ∈ offers, CollisionIn H (partPre H (split data psize).length p)
+        (rootPre H (split data psize).length (split data psize))
+  · right; exact hex
+  left
+  have hnone : ∀ p ∈ offers, ¬ CollisionIn H (partPre H (split data psize).length p)
+        (rootPre H (split data psize).length (split data psize)) := by
+    intro p hp hc; exact hex ⟨p, hp, hc⟩
+  have hne : split data psize ≠ [] := by
+    intro h
+    have := split_join data psize hps
+    rw [h] at this; simp at this; exact hd this
+  generalize hpieces : split data psize = pieces at *
+  have hinit : Good H pieces (fromHeader pieces.length (root H pieces)) := by
+    refine ⟨rfl, rfl, by simp [fromHeader], ?_⟩
+    intro i q hq
+    simp [fromHeader, List.getElem?_replicate] at hq
+  have hall : ∀ (os : List Part) (ps : PartSet), (∀ p ∈ os, ¬ CollisionIn H (partPre H pieces.length p)
+        (rootPre H pieces.length pieces)) → Good H pieces ps → Good H pieces (addAll H ps os) := by
+    intro os
+    induction os with
+    | nil => intro ps _ h; exact h
+    | cons o os ih =>
+      intro ps hn h
+      exact ih _ (fun p hp => hn p (List.mem_cons_of_mem _ hp))
+        (good_step_traced H L hL hlen pieces hne ps o h (hn o (List.mem_cons_self)))
+  have hfin := hall offers _ hnone hinit
+  generalize addAll H (fromHeader pieces.length (root H pieces)) offers = fin at *
+  obtain ⟨h1, _, h3, h4⟩ := hfin
+  have hfull : ∀ i, i < fin.parts.length → ∃ q, fin.parts[i]? = some (some q) := by
+    have hc : (fin.parts.filter Option.isSome).length = fin.parts.length := by
+      have := hcomplete
+      simp [isComplete, count] at this
+      omega
+    have hallsome : ∀ o ∈ fin.parts, o.isSome = true := List.length_filter_eq_length_iff.mp hc
+    intro i hi
+    have hm := hallsome fin.parts[i] (List.getElem_mem hi)
+    rcases hq : fin.parts[i] with _ | q
+    · rw [hq] at hm; cases hm
+    · exact ⟨q, by simp [hi, hq]⟩
+  have hmap : (fin.parts.map partBytes) = pieces := by
+    apply List.ext_getElem?
+    intro i
+    by_cases hi : i < fin.parts.length
+    · obtain ⟨q, hq⟩ := hfull i hi
+      have := h4 i q hq
+      simp [hq, this, partBytes]
+    · have h5 : pieces.length ≤ i := by omega
+      simp [List.getElem?_eq_none_iff.mpr h5, List.getElem?_eq_none_iff.mpr (Nat.le_of_not_lt hi)]
+  unfold assemble
+  simp only [hmap]
+  rw [← hpieces]
+  exact split_join data psize hps
+
 /-! Non-vacuity: the hypotheses are satisfiable and `added` is reachable. -/
 example : let Hx : Bytes → Bytes := fun x => [UInt8.ofNat x.length];
     (∀ x, (Hx x).length = 1) ∧ split [1,2,3] 2 = [[1,2],[3]] := by
